@@ -117,4 +117,14 @@ def encode_time (params : List (Value N)) : Except NativeError (Value N) :=
   | _ :: _ :: _ :: _ => .error .wrongParameterType
   | _ => .error (.wrongParameterCount 3)
 
+/-- `inc_month` (src/stdlib/time.rs) -/
+def inc_month (params : List (Value N)) : Except NativeError (Value N) :=
+  (SrcStdlib.default_number params 1 (NumOps.ofBool true : N)) >>= fun increment =>
+  match params with
+  | value :: _ =>
+      (((try_from value) >>= fun datetime => let delta := Int.natAbs (NumX.toI32 increment)
+       if NumX.gt0 increment then (match addMonths datetime (((delta : Nat) : Int)) with | some v => .ok v | none => .error (.custom ['i', 'n', 'c', '_', 'm', 'o', 'n', 't', 'h', ' ', 'i', 'n', 'c', 'r', 'e', 'm', 'e', 'n', 't', ' ', 'o', 'v', 'e', 'r', 'f', 'l', 'o', 'w'])) else if NumX.lt0 increment then (match addMonths datetime (-((delta : Nat) : Int)) with | some v => .ok v | none => .error (.custom ['i', 'n', 'c', '_', 'm', 'o', 'n', 't', 'h', ' ', 'd', 'e', 'c', 'r', 'e', 'm', 'e', 'n', 't', ' ', 'u', 'n', 'd', 'e', 'r', 'f', 'l', 'o', 'w'])) else .ok datetime) >>= fun datetime =>
+       .ok (from_datetime datetime : Value N))
+  | _ => .error (.wrongParameterCount 1)
+
 end Slac.Generated.SrcTime
